@@ -18,19 +18,19 @@
 namespace awkward {
   Index::Form
   Index::str2form(const std::string& str) {
-    if (strncmp(str.c_str(), "i8", str.length()) == 0) {
+    if (str == "i8") {
       return Index::Form::i8;
     }
-    else if (strncmp(str.c_str(), "u8", str.length()) == 0) {
+    else if (str == "u8") {
       return Index::Form::u8;
     }
-    else if (strncmp(str.c_str(), "i32", str.length()) == 0) {
+    else if (str == "i32") {
       return Index::Form::i32;
     }
-    else if (strncmp(str.c_str(), "u32", str.length()) == 0) {
+    else if (str == "u32") {
       return Index::Form::u32;
     }
-    else if (strncmp(str.c_str(), "i64", str.length()) == 0) {
+    else if (str == "i64") {
       return Index::Form::i64;
     }
     else {
